@@ -108,6 +108,9 @@ func (s *c28state) runMutation(b *built, m mutation, mutSeed uint64, idx int) bo
 	for _, res := range results {
 		r.Seen("status_after_mutation", fmt.Sprintf("%s:%d", res.Transport, res.Status))
 		r.Count(fmt.Sprintf("status_%d", res.Status), 1)
+		if res.panicked() {
+			report(r, "panic-in-signature-middleware", fmt.Sprintf("mutation %q made the middleware panic: %s", m.Kind, res.Err), wit)
+		}
 		if res.acceptedAuth() {
 			accepted = true
 		} else if res.anonymous() {
